@@ -21,6 +21,7 @@
 #include <map>
 #include <set>
 #include <unordered_set>
+#include <deque>
 #include <functional>
 #include <chrono>
 #include <csignal>
@@ -181,6 +182,7 @@ struct Driver {
 inline Driver &drv() { static Driver *d = new Driver; return *d; }   // intentionally never destroyed (used from the sanitizer death callback at exit)
 // run LeakSanitizer's recoverable check after every N-th case (0 = only at process exit); set by targets in vf_global_init
 inline unsigned &leak_check_interval() { static unsigned n = 0; return n; }
+inline bool &force_leak_check() { static bool f = false; return f; }
 
 inline void write_file(const std::string &path, const void *p, size_t n) {
     int fd = open(path.c_str(), O_WRONLY | O_CREAT | O_TRUNC, 0644);
@@ -244,7 +246,7 @@ inline std::string run_case(const PropDef &pd, const uint8_t *data, size_t len, 
     catch (const Fail &f) { sig = f.sig.empty() ? "fail" : f.sig; if (detail) *detail = f.detail; }
     catch (const Discard &) { if (discarded) *discarded = true; }
     if (pd.case_timeout) alarm(0);
-    if (sig.empty() && leak_check_interval() && (++d.leak_ctr % leak_check_interval()) == 0) {
+    if (sig.empty() && leak_check_interval() && (force_leak_check() || (++d.leak_ctr % leak_check_interval()) == 0)) {
         if (__lsan_do_recoverable_leak_check()) { sig = "lsan:leak-after-case"; if (detail) *detail = "LeakSanitizer found memory leaked by this case (see log for allocation stacks)"; }
     }
     return sig;
@@ -337,7 +339,7 @@ inline int driver_main(int argc, char **argv) {
         std::vector<uint8_t> buf; uint8_t tmp[4096]; size_t r;
         while ((r = fread(tmp, 1, sizeof tmp, f)) > 0) buf.insert(buf.end(), tmp, tmp + r);
         fclose(f);
-        d.ctx.replaying = false; d.ctx.verbose = true;
+        d.ctx.replaying = false; d.ctx.verbose = true; force_leak_check() = true;
         std::string detail; bool disc = false;
         std::string sig = run_case(pd, buf.data(), buf.size(), &detail, &disc);
         d.cur = nullptr;
@@ -383,6 +385,7 @@ inline int driver_main(int argc, char **argv) {
     }
     Rng rng(d.seed * 1000003ULL + d.shard * 7919ULL + 17);
     std::vector<uint8_t> tape(pd.tape_len);
+    std::deque<std::vector<uint8_t>> recent;
     for (uint64_t c = 0; c < cases; c++) {
         if (now_s() - t0 > secs) { d.budget_hit = true; break; }
         // mostly uniform bytes; sometimes sparse (many zeros) or small-valued to reach edge cases
@@ -395,9 +398,17 @@ inline int driver_main(int argc, char **argv) {
         }
         if (c == dump_idx) { write_file(dump_path, tape.data(), tape.size()); return 0; }
         std::string detail; bool disc = false;
+        if (leak_check_interval() > 1) { recent.push_back(tape); if (recent.size() > leak_check_interval()) recent.pop_front(); }
         std::string sig = run_case(pd, tape.data(), tape.size(), &detail, &disc);
         d.ctx.evaluations++;
         if (disc) d.ctx.discards++;
+        if (sig == "lsan:leak-after-case" && leak_check_interval() > 1) {
+            // the periodic check fired: find which of the recent cases leaks by re-running them with a check after each
+            force_leak_check() = true; bool was = d.ctx.replaying; d.ctx.replaying = true; bool found = false;
+            for (auto &rt : recent) { std::string dd; if (run_case(pd, rt.data(), rt.size(), &dd) == "lsan:leak-after-case") { tape = rt; detail = dd; found = true; break; } }
+            d.ctx.replaying = was;
+            if (!found) { force_leak_check() = false; fprintf(stderr, "[vf] periodic leak check fired but no recent case reproduces it (ignored)\n"); continue; }
+        }
         if (sig.empty()) continue;
         if (d.ctx.is_known(sig)) { d.ctx.known_hits[sig]++; if (!d.ctx.known_detail.count(sig)) d.ctx.known_detail[sig] = detail; continue; }
         // genuine failure: shrink, store, stop
